@@ -21,7 +21,7 @@ T = {
             'batch/slice forms are sequences of the single-item edits at tree level and are covered by the token-list theorems of C03 plus per-state validation by the verified checker; hand-written classes by correspondence only', 'translator (ast, fail-closed) + Coq proof over generic tree model (WF checker sound, compositional edits) + per-state validation + WF monitor'),
     'C06': ('Partial: the re-parse statement needs the real lexer/parser (oracle) and is decided by the monitor (print, re-parse, compare content, value views and comment texts after every edit). Proved: separation of repeated-field items is preserved by every delete/insert/replace (RepeatedSep), tight fields demand nothing; the lexical half over the hand-written recognisers of all 16 terminals that Tokens.v models (TokensStable.v): a complete lexeme followed by text r is recognised with exactly the same extent whenever boundary_K r holds (weakest such condition for 8 terminals), every blank / line end / comma-blank is a boundary for every value kind, hence items printed with such gaps scan back into exactly the lexemes (C06_separated_relex; converse witnesses 1 ++ ,234 / #a ++ b / BBB ++ USD); formatted layouts enumerate declared fields in order; pivots are the scheme chains and are recomputed on every access (translator refuses a cached pivot).',
             'lark (choice of terminal by the LALR state, the contextual lexer) is an oracle: the recognisers are compared with lark and CPython re on every run incl. lexeme+continuation texts; optional-field separators covered by C03 slot theorems + monitor', 'Coq proof of separation invariant + lexeme-extent stability + translator facts; re-parse monitor'),
-    'C07': ('Theorems about Store.v, a statement-by-statement Gallina model of token_store.py (explicit handles, block indexes, caches, load factor a variable): invariant + refinement to a plain list for every operation and history and every load factor >= 2; observers equal list functions. Full-state correspondence after every step (LF 2..16) and a plain-list monitor.',
+    'C07': ('Theorems about Store.v, a statement-by-statement Gallina model of token_store.py (explicit handles, block indexes, caches, load factor a variable): invariant + refinement to a plain list for every operation and history and every load factor >= 2; observers equal list functions. Full-state correspondence after every step (LF 2..16), a plain-list monitor, and an exhaustive small-scope correspondence (store_exhaustive.py: every operation with every argument combination from every store of <= 4 tokens over a 3-text alphabet, LF 2 and 3, all sequences up to length 3 with states merged up to renaming - thorough tier: ~220k distinct steps compared inside Coq; a slice in the quick tier).',
             'contract of splice: inserted tokens are free or inside the removed range', 'Coq proof: invariant + refinement to list spec'),
     'C08': ('Theorems about Store.v: get_position = advance over the concatenated text before the token, get_index = ordinal, under the store invariant; update() keeps the size caches exact in all four branches; token_size is a monoid morphism. Correspondence on text-update-heavy histories + position monitor on stores and parsed documents.',
             '"\\n" is the only line break (as _token_size counts); 0-based positions', 'Coq proof: position theorem over store invariant'),
@@ -35,8 +35,8 @@ T = {
             'CPython re / str primitives as modelled; decimal/date formatting validated', 'Coq proof: codec round-trips + recognisers'),
     'C13': ('Theorems about NumExpr.v (every constructor/dunder of number_expr.py; arithmetic carrier abstract): printed text re-parses to the same tree, value = evaluation, operator results and parenthesisation, operands untouched, chains by induction.',
             'decimal arithmetic is a Section variable; lark lexer oracle', 'Coq proof: parse/print/eval over expression trees'),
-    'C14': ('Theorems about Comments.v/CommentsOwn/CommentsRestore: ownership invariant (<= 1 owner, claimed flag coherent) preserved by all six claim/unclaim calls, auto-claim sequences and node-level assignment of comments, for every history; unclaim-claim restores (surrounding and interleaving: full, the latter under the position hypothesis claimable_b, refuted without it = known finding for appended entries); the interleaving claimer claims exactly the unclaimed comments of its range (CommentsRange/CommentsComplete: covers, frame, where the scan stops), hence no comment unowned after File.auto_claim_comments and idempotence of the File-level auto-claim without assuming everything claimed; single-claim rule declaratively (iff). Every theorem hypothesis is a boolean evaluated per trace of the implementation. Monitors: ownership tables, none unowned, parse(flag)=parse+claim, idempotence, restore, hand-over histories, rule from the line layout.',
-            'whole-layout attribution rule: monitor only (known finding for posting-less transactions)', 'Coq proof: ownership invariant over histories + declarative claim rule'),
+    'C14': ('Theorems about Comments.v/CommentsOwn/CommentsRestore: ownership invariant (<= 1 owner, claimed flag coherent) preserved by all six claim/unclaim calls, auto-claim sequences and node-level assignment of comments, for every history; unclaim-claim restores (surrounding and interleaving: full, the latter under the position hypothesis claimable_b, refuted without it = known finding for appended entries); the interleaving claimer claims exactly the unclaimed comments of its range (CommentsRange/CommentsComplete: covers, frame, where the scan stops), hence no comment unowned after File.auto_claim_comments and idempotence of the File-level auto-claim without assuming everything claimed; single-claim rule declaratively (iff); the attribution rule over layouts (CommentsRule.v): attrib_spec, the first surrounding claim called while the comment is unclaimed and adjacent wins, the call order decides (leading over trailing because of the generated order, read off Generated.v by vm_compute), standalone fall-through into the first field whose range holds the comment, refuted for the one cross-field inversion (Transaction: postings before meta = known finding). Every theorem hypothesis is a boolean evaluated per trace of the implementation. Monitors: ownership tables, none unowned, parse(flag)=parse+claim, idempotence, restore, hand-over histories, rule from the line layout.',
+            'that a comment is still unclaimed and adjacent / in range when its call comes is validated per trace (attrib_spec_b against the final owner), not proved', 'Coq proof: ownership invariant over histories + declarative claim rule'),
     'C15': ('Theorems about Construct.v (generic from_children over the extracted layouts): constructed node conforms, its kids are the arguments, token texts in layout order with the declared separators, WF and whole-store for every generated class and argument combination with both former run-level hypotheses discharged (ConstructFull.v: edges_ok per class by vm_compute, args_fresh = the condition under which the implementation does not refuse), hereditary well-formedness, constructed models are admissible donors (construct-insert-history closes the C05 loop); CustomValues.v (custom._disambiguate_values statement by statement): the disambiguated value list prints to tokens that split back into exactly those values (refuted without disambiguation: [1; -2]), values kept, idempotent, refusal atomic; layouts enumerate every declared field once in order (per-run, generated classes). Re-parse equality decided by the monitor over every class with from_value x optional-argument subsets, argument read-back, root comments, File assembly; the verified WF checker runs on every constructed model.',
             'lark is an oracle; two recorded findings for comments that end up adjacent', 'translator + Coq proof of generic construction; construct-print-reparse monitor'),
     'C16': ('Theorems about Editor.v over a model file system (glob/normpath/parse/print as Section variables with stated laws): unchanged not written, changed = printed model exactly, removed unlinked, added created, each reachable path parsed once (BFS terminates), raise => no write. Real Editor run in temp dirs; FS-operation traces compared.',
